@@ -144,4 +144,29 @@ PROPS = {
                     thorough="same (the space is finite and enumerated completely)"),
         outside="concurrent follower reads sharing one in-flight revision fetch (recorded finding C18-singleflight, not checked by this harness: needs an HTTP/singleflight model, see DESIGN.md); the HTTP transport and the etcd proxy client",
     ),
+    "C14": dict(
+        harnesses=[
+            dict(run="pkg/backend/election.VerifC14Lock", quick=dict(candidates=2, steps=5), thorough=dict(candidates=3, steps=6), covers=["created", "create-refused", "updated", "update-refused", "done"]),
+        ],
+        bounds=dict(quick="2 candidates, every sequence of 5 whole Get/Create/Update calls (each contains exactly one store operation), symbolic record contents, both conflict-reporting styles of the engine contract",
+                    thorough="3 candidates, 6 steps"),
+        outside="interleavings inside one method call (each contains a single store write, so call-level interleaving is the relevant granularity); client-go's elector loop; engines' conflict reporting beyond the contract (C11)",
+    ),
+    "C15": dict(
+        harnesses=[
+            dict(run="pkg/zzc15.VerifC15Restart", quick=dict(attempts=3), thorough=dict(attempts=4), covers=["failed-writes-consumed-revisions", "follower-sync", "done"], no_native=True),
+        ],
+        bounds=dict(quick="old leader elected through the real election path, 3 write attempts with symbolic expected revisions (any mix of successes, failed conditions and future-revision rejections) each optionally followed by a lock renewal; new node with 0..2 follower revision syncs in any order, elected over the same store; engine clock contract: wall clock/PD timestamp (>= 1 unit per attempt) or count of committed transactions",
+                    thorough="4 write attempts"),
+        outside="client-go's elector loop (modelled as one Get + Create/Update + OnStartedLeading); real clocks; the assumption 'fewer than one write attempt per clock unit' for wall-clock/PD engines",
+        assumptions=["leaderelection.RunOrDie is replaced by a model of one successful acquire pass; counterexamples of this harness are NOT replayed natively (the real elector cannot be stopped and exits the process on lost leadership) — the Badger clock finding was reproduced by hand on a real Badger directory during design"],
+    ),
+    "C20": dict(
+        harnesses=[
+            dict(run="pkg/zzc20.VerifC20NoCrash", quick=dict(requests=1, keylen=2), thorough=dict(requests=2, keylen=1), covers=["done"]),
+        ],
+        bounds=dict(quick="one request through any of 14 handler groups of both APIs with keys/values/range ends of 0..2 arbitrary bytes (invalid UTF-8, bytes below the alphabet), symbolic 64-bit revisions and limits (zero, negative, far future), missing sub-messages, watches cancelled; real prometheus wrapper over a model of client_golang's panic rules; then a create + get must work",
+                    thorough="every ordered pair of requests (so that two emission sites of one metric meet in one process)"),
+        outside="protobuf/gRPC decoding; resource exhaustion; more than 2 requests per process; metric emission sites not reached by these handlers (election callbacks, retry loop, compaction histories)",
+    ),
 }
